@@ -344,6 +344,27 @@ func (c *Ctx) DispatchOrder() []core.Ob {
 		}
 		obs = append(obs, e)
 	}
+	// the callers of the dispatcher inside package bot (the game loop, the bundle loop) stop at its first error too:
+	// a packet after a failed one is not dispatched
+	perCaller := map[string]int{}
+	for _, f := range c.Funcs() {
+		if !inPkgs(f, "bot") {
+			continue
+		}
+		for _, ci := range callsIn(f, func(_ string, cc *ssa.CallCommon) bool {
+			g := cc.StaticCallee()
+			return g != nil && core.Origin(g) == fn
+		}) {
+			perCaller[core.FnName(f)]++
+			e := c.ordOb(fmt.Sprintf("dispatch-order:dispatcher-error:%s#%d", core.FnName(f), perCaller[core.FnName(f)]), "an error of the packet dispatcher ends its caller's loop at once: no later packet is dispatched after a handler failed", f)
+			e.Pos = c.P.Pos(ci.Pos())
+			call, _ := ci.(*ssa.Call)
+			if call == nil || !(errCheckedThenReturn(call) || returnedDirectly(call)) {
+				e.Status, e.Got = core.Violated, "the dispatcher's error is not tested with an immediate return: the remaining packets are still dispatched"
+			}
+			obs = append(obs, e)
+		}
+	}
 	if k == 0 {
 		e := c.ordOb("dispatch-order:handler-calls", "handlePacket calls the registered handler functions", fn)
 		e.Status, e.Got = core.Violated, "no dynamic handler call found"
@@ -630,6 +651,31 @@ func (c *Ctx) CompressionSwitch() []core.Ob {
 		if _, isConst := arg.(*ssa.Const); isConst {
 			b.Status, b.Got = core.Violated, "SetThreshold is called with a constant, not the value announced by the server"
 		}
+		// every announced value switches the framing (0 included: the server compresses from then on):
+		// the call is not guarded by a test of the announced value itself
+		src := loadAddr(stripConv(arg))
+		cb := sets[0].Block()
+		for d := cb.Idom(); d != nil; d = d.Idom() {
+			iff, ok := d.Instrs[len(d.Instrs)-1].(*ssa.If)
+			if !ok {
+				continue
+			}
+			guarded := false
+			for _, sx := range d.Succs {
+				if (sx == cb || sx.Dominates(cb)) && len(sx.Preds) == 1 {
+					guarded = true
+				}
+			}
+			cmp, isCmp := iff.Cond.(*ssa.BinOp)
+			if !guarded || !isCmp {
+				continue
+			}
+			for _, op := range []ssa.Value{cmp.X, cmp.Y} {
+				if v := stripConv(op); v == stripConv(arg) || (loadAddr(v) != v && loadAddr(v) == src) {
+					b.Status, b.Got = core.Violated, "SetThreshold is only called when the announced threshold passes a test ("+c.P.Pos(cmp.Pos())+"): for the other values the server has switched framing and the client has not"
+				}
+			}
+		}
 	}
 	obs = append(obs, b)
 	return obs
@@ -850,6 +896,29 @@ func (c *Ctx) RegionOrder() []core.Ob {
 		}
 	}
 	obs = append(obs, h)
+
+	// the occupancy map and the header agree: a change of the map in WriteSector (sectors given back
+	// or taken) is followed by a header write on every path - sectors given back while the header
+	// still counts them are handed to another chunk and overwritten when this one grows again
+	om := c.ordOb("region:occupancy-change-mirrored", "every update of the sector-occupancy map in WriteSector is followed by a write of the chunk's header slot on every path to a return", ws)
+	nMap := 0
+	for _, n := range v.nodes {
+		mu, ok := n.in.(*ssa.MapUpdate)
+		if !ok || v.recvField(n, loadAddr(mu.Map)) != lay.sectors || lay.sectors == "" {
+			continue
+		}
+		nMap++
+		if !v.mustFollow(n.id, isHead) {
+			om.Status, om.Got = core.Violated, "a path from the occupancy update at "+c.P.Pos(mu.Pos())+" reaches a return without a header write: the map and the header's sector count disagree"
+		}
+	}
+	if nMap == 0 {
+		om.Status, om.Got = core.Violated, "no update of the occupancy map found in WriteSector"
+	}
+	obs = append(obs, om)
+
+	// the sector count stored in the low byte of a location fits in a byte
+	obs = append(obs, c.regionCountFits(ws)...)
 
 	// the header writer receives WriteSector's own x, z (in that order)
 	a := c.ordOb("region:setHead-own-coordinates", "the header slot is written for WriteSector's own x and z, in this order", ws)
@@ -1645,4 +1714,70 @@ func (c *Ctx) ThresholdPlumbing() []core.Ob {
 	}
 	obs = append(obs, po)
 	return obs
+}
+
+// regionCountFits: where WriteSector (or a helper) packs a location word as (offset << 8) | count,
+// the count is proven to lie in 0..255 at that point (R-TLG intervals): a larger count is cut to its
+// low byte and the header then claims fewer sectors than were written.
+func (c *Ctx) regionCountFits(ws *ssa.Function) []core.Ob {
+	o := c.ordOb("region:sector-count-fits-byte", "the sector count packed into the low 8 bits of a location word is at most 255 there (the size refusal bounds the count itself)", ws)
+	t := c.TLG()
+	n := 0
+	for _, fn := range c.withPkgCallees(ws, 2) {
+		var sites []*ssa.BinOp
+		for _, b := range fn.Blocks {
+			for _, in := range b.Instrs {
+				or, ok := in.(*ssa.BinOp)
+				if !ok || or.Op != token.OR {
+					continue
+				}
+				for _, pair := range [][2]ssa.Value{{or.X, or.Y}, {or.Y, or.X}} {
+					sh, ok := stripConv(pair[0]).(*ssa.BinOp)
+					if !ok || sh.Op != token.SHL {
+						continue
+					}
+					if k, ok := constIntVal(sh.Y); !ok || k != 8 {
+						continue
+					}
+					sites = append(sites, or)
+				}
+			}
+		}
+		if len(sites) == 0 {
+			continue
+		}
+		t.Probe(fn, func(in ssa.Instruction, eval func(ssa.Value) AV, _ func(string) (AV, bool)) {
+			for _, or := range sites {
+				if in != ssa.Instruction(or) {
+					continue
+				}
+				for _, pair := range [][2]ssa.Value{{or.X, or.Y}, {or.Y, or.X}} {
+					sh, ok := stripConv(pair[0]).(*ssa.BinOp)
+					if !ok || sh.Op != token.SHL {
+						continue
+					}
+					// (the value as the program names it: a conversion that defines it keeps its own facts)
+					cnt := pair[1]
+					if and, ok := stripConv(cnt).(*ssa.BinOp); ok && and.Op == token.AND {
+						if k, ok := constIntVal(and.Y); ok && k == 0xFF {
+							cnt = and.X
+						} else if k, ok := constIntVal(and.X); ok && k == 0xFF {
+							cnt = and.Y
+						}
+					}
+					n++
+					av := eval(cnt)
+					all := av.all()
+					if all == nil || all.Hi == nil || all.Hi.Cmp(bi(255)) > 0 {
+						o.Status, o.Pos = core.Violated, c.P.Pos(or.Pos())
+						o.Got = "the count is only known to be " + av.String() + " where it is packed: a chunk needing 256 or more sectors is recorded with a truncated count"
+					}
+				}
+			}
+		})
+	}
+	if n == 0 {
+		o.Status, o.Got = core.Violated, "no (offset << 8) | count packing found in WriteSector or its helpers"
+	}
+	return []core.Ob{o}
 }
